@@ -1,14 +1,15 @@
 SPECIFICATION Spec
 CONSTANTS
- MaxP = 90
- MaxQ = 45
- MaxK = 10
+ MaxP = 47
+ MaxQ = 23
+ MaxK = 7
  Margin = 4
  Variants <- A_com
  NaiveMaxP = 11
  NaiveVariants <- D_com
- NbrMaxP = 47
- NbrVariants <- N_comT
+ AccMaxP = 19
+ NbrMaxP = 31
+ NbrVariants <- N_com
  Mode = "nbr"
  CheckArith = FALSE
  SortedBases = TRUE
